@@ -445,3 +445,20 @@ class PointerNode(NodeProtocol):
     def emit(self, current_addr: Address) -> bytes:
         value = self.value_node.get_value()
         return struct.pack("<HB", value & 0xFFFF, (value >> 16) & 0xFF)
+
+
+class ArgumentNode(SymbolNode):
+    """A macro argument that could not be evaluated when the macro was applied (it names a label or a symbol the
+    passes define): it is evaluated where the macro is applied and bound in the scope of the application."""
+
+    def pc_after(self, current_pc: Address) -> Address:
+        assert isinstance(self.expression, ExpressionAstNode)
+        scope = self.resolver.current_scope
+        assert scope.parent is not None
+        self.resolver.current_scope = scope.parent
+        try:
+            value = eval_expression(self.expression, self.resolver)
+        finally:
+            self.resolver.current_scope = scope
+        scope.add_symbol(self.symbol_name, value)
+        return current_pc
